@@ -46,7 +46,8 @@ class UserDeleteNode(ActionGroup):
                 new_track_id = self.tracks.get_track_id(pred)
                 self.actions.append(UpdateTrackIDs(tracks, sib, new_track_id))
             self.actions.append(DeleteEdge(tracks, (pred, node)))
-        for succ in self.tracks.successors(node):
+        detached = self.tracks.successors(node)
+        for succ in detached:
             self.actions.append(DeleteEdge(tracks, (node, succ)))
 
         # connect child and parent in track, if applicable
@@ -56,6 +57,17 @@ class UserDeleteNode(ActionGroup):
             predecessor, successor = self.tracks.get_track_neighbors(track_id, time)
             if predecessor is not None and successor is not None:
                 self.actions.append(AddEdge(tracks, (predecessor, successor)))
+                detached = [succ for succ in detached if succ != successor]
+        # every subtree that is not reconnected becomes a new lineage
+        for succ in detached:
+            self.actions.append(
+                UpdateTrackIDs(
+                    tracks,
+                    succ,
+                    self.tracks.get_track_id(succ),
+                    self.tracks.get_next_lineage_id(),
+                )
+            )
 
         # delete node
         self.actions.append(DeleteNode(tracks, node, pixels=pixels))
